@@ -487,6 +487,10 @@ func TestC16(t *testing.T) {
 				return ap.IRI("https://example.com/actors/a?page=1") // another identity than actors/a: only the query differs
 			case 8:
 				return &ap.Object{ID: "https://example.com/actors/a?page=1&page=2", Type: ap.NoteType}
+			case 10:
+				return ap.IRI("https://example.com:8443/actors/a") // the same host name and path on another port: another server, another identity
+			case 11:
+				return &ap.Actor{ID: "https://example.com:8443/actors/a", Type: ap.PersonType}
 			}
 			return nil
 		}
@@ -505,7 +509,7 @@ func TestC16(t *testing.T) {
 		}
 		build(nil)
 		// near identities: actors/a as IRI and embedded, and two other identities whose ids differ from it only in the query
-		near := []int{0, 1, 7, 8}
+		near := []int{0, 1, 7, 8, 10, 11}
 		var buildNear func(cur []int)
 		buildNear = func(cur []int) {
 			if len(cur) > 0 {
